@@ -17,6 +17,7 @@
 #include <atomic>
 #include <condition_variable>
 #include <cstdint>
+#include <deque>
 #include <iostream>
 #include <memory>
 #include <mutex>
@@ -196,7 +197,9 @@ namespace bloch::runtime {
         std::vector<Value> staticStorage;
         std::unordered_map<std::string, size_t> instanceFieldIndex;
         std::unordered_map<std::string, size_t> staticFieldIndex;
-        std::unordered_map<std::string, std::vector<RuntimeMethod>> methods;
+        // Overload buckets are deques so that the RuntimeMethod addresses handed out to the
+        // vtable (and to derived classes' vtables) stay valid while further overloads are added.
+        std::unordered_map<std::string, std::deque<RuntimeMethod>> methods;
         std::unordered_map<std::string, RuntimeMethod*> vtable;
         std::vector<RuntimeConstructor> constructors;
         std::vector<RuntimeTypeInfo> typeArgs;
